@@ -276,13 +276,13 @@ def check(ctx):
         ctx.ob("C15-R4", f.fq, f"a {hcls} value (what .timer returns) is accepted as given by .timerc", found and accepted, node=f.node, construct="timerc accepts the handle timer returns",
                msg=f".timerc only looks for the handle under `{bad}`: the object .timer returns is not of that kind")
         p = f.params()
-        for r in [n for n in walk_local(f.node) if isinstance(n, ast.Return)]:
-            v = r.value
+        from ..flow import return_alts
+        for facts, v, r in return_alts(f.node):      # `if timer: return x.cancel()` / `return 0` and `return x.cancel() if timer else 0` alike
             is_cancel = isinstance(v, ast.Call) and isinstance(v.func, ast.Attribute) and v.func.attr == "cancel" and isinstance(v.func.value, ast.Name) and v.func.value.id in p
             zero_ok = isinstance(v, ast.Constant) and v.value == 0 and any(
-                isinstance(e, ast.Call) and callee_name(e) == "isinstance" and not pol for e, pol in atoms_at(r, f.node))
+                isinstance(e, ast.Call) and callee_name(e) == "isinstance" and not pol for e, pol in facts)
             ctx.ob("C15-R4", f.fq, "returns cancel()'s result, or 0 only for a value that is not a timer", is_cancel or zero_ok, node=r,
-                   construct=f"return {src(v)}", msg=".timerc's result is not the live->dead transition reported by cancel()")
+                   construct=f"return {src(v) if v is not None else None}", msg=".timerc's result is not the live->dead transition reported by cancel()")
 
     # ---- R5 callback wrapped before the runner sees it
     _check_wrapping(ctx, repo, outer)
@@ -304,8 +304,9 @@ class CancelSem(Sem):
     """state: frozenset of (known, cancelled, marked): known in D(ead) A(live) ?"""
     base_exc_escapes = False
 
-    def __init__(self, attrs):
+    def __init__(self, attrs, result_vars=()):
         self.attrs = attrs
+        self.result_vars = set(result_vars)     # locals that are returned (single-exit spelling): their constant value rides in the state
 
     def join2(self, a, b):
         return a | b
@@ -316,10 +317,13 @@ class CancelSem(Sem):
     def transfer(self, st, state):
         for c in calls_in(st):
             if isinstance(c.func, ast.Attribute) and c.func.attr == "cancel" and self._state_ref(c.func.value):
-                state = frozenset((k, True, m) for k, _c, m in state)
+                state = frozenset((k, True, m) + tuple(r) for k, _c, m, *r in state)
         if isinstance(st, ast.Assign) and any(self._state_ref(t) for t in st.targets):
             isnone = isinstance(st.value, ast.Constant) and st.value.value is None
-            state = frozenset((k, c, isnone) for k, c, _m in state)
+            state = frozenset((k, c, isnone) + tuple(r) for k, c, _m, *r in state)
+        if isinstance(st, ast.Assign) and len(st.targets) == 1 and isinstance(st.targets[0], ast.Name) and st.targets[0].id in self.result_vars:
+            v = st.value.value if isinstance(st.value, ast.Constant) else "?"
+            state = frozenset((k, c, m, v) for k, c, m, *_r in state)
         return state
 
     def _atom(self, e, pol, state):
@@ -332,7 +336,7 @@ class CancelSem(Sem):
         if dead_pol is None:
             return state
         want = "D" if dead_pol else "A"
-        out = {(want, c, m) for k, c, m in state if k in ("?", want)}
+        out = {(want, c, m) + tuple(r) for k, c, m, *r in state if k in ("?", want)}
         return frozenset(out) or None
 
     def refine(self, test, state):
@@ -341,12 +345,15 @@ class CancelSem(Sem):
 
 def _check_cancel(ctx, cancel, attrs):
     ctx.instance("C15-R4", cancel.fq)
-    exits = CancelSem(attrs).run(cancel.node, frozenset([("?", False, False)]))
+    rvars = {r.value.id for r in walk_local(cancel.node) if isinstance(r, ast.Return) and isinstance(r.value, ast.Name)}
+    exits = CancelSem(attrs, rvars).run(cancel.node, frozenset([("?", False, False, None)]))
     rets = [x for x in exits if x.kind == "return"]
+    n_paths = 0
     for x in rets:
         v = x.node.value if isinstance(x.node, ast.Return) else None
-        val = v.value if isinstance(v, ast.Constant) else None
-        for k, c, m in x.state:
+        for k, c, m, rv in sorted(x.state, key=str):
+            n_paths += 1
+            val = v.value if isinstance(v, ast.Constant) else (rv if isinstance(v, ast.Name) and v.id in rvars else None)
             if val == 0:
                 ok = k == "D" and not c
                 msg = "cancel() returns 0 on a path where the timer may be alive or after touching the delegate"
@@ -357,7 +364,7 @@ def _check_cancel(ctx, cancel, attrs):
                 ok, msg = False, "cancel() returns something other than the constants 0/1"
             ctx.ob("C15-R4", cancel.fq, f"return {val!r} in state known={k} cancelled={c} marked={m}", ok, node=x.node,
                    construct=f"cancel() return {val!r} [{k},{'c' if c else '-'},{'m' if m else '-'}]", msg=msg)
-    ctx.floor("C15-R4", "return paths of cancel()", len(rets), 2)
+    ctx.floor("C15-R4", "return paths of cancel() (return statement x abstract state)", n_paths, 2)
 
 
 def _check_wrapping(ctx, repo, outer):
@@ -380,10 +387,11 @@ def _check_wrapping(ctx, repo, outer):
         if not isinstance(arg, ast.Name):
             ctx.ob("C15-R5", f.fq, "callback argument is a local variable with analysable definitions", False, node=c, construct="callback argument shape")
             continue
-        defs = [n for n in walk_local(f.node) if isinstance(n, ast.Assign) and any(isinstance(t, ast.Name) and t.id == arg.id for t in n.targets)]
+        from ..common import name_defs
         wrapped = False
-        for d in defs:
-            v = d.value
+        for v, d in name_defs(f.node, arg.id):
+            if isinstance(v, ast.Constant) and v.value is None:
+                continue          # the 'no callback' placeholder of an error path (the function returns the error before using it)
             is_wrap = isinstance(v, ast.Call) and callee_name(v) == "KGFnWrapper"
             facts = atoms_at(d, f.node)
             kgfn_true = any(isinstance(e, ast.Call) and callee_name(e) == "isinstance" and len(e.args) == 2 and src(e.args[1]) in ("KGFn", "(KGFn,)") and pol for e, pol in facts)
